@@ -156,6 +156,23 @@ def step (st : DState) (line : String) : DState × String :=
         | some n => toString n
         | none => "-"
       (upd a, rcOf r ++ " " ++ toString a.offset ++ " " ++ ds)
+    | "R", [_path, content], some a =>
+      let file := if content == "missing" then none else readFile (unhex content) true true true []
+      let (a, r) := asmAssembleFile a file
+      (upd a, rcOf r ++ " " ++ toString a.offset)
+    | "U", [c, _path, content, d], some a =>
+      let file := if content == "missing" then none else readFile (unhex content) true true true []
+      let (a, r, brks) := asmCountingChunksFile a file (parseInt c) (d != "0")
+      -- (-777 is the harness's sentinel for "*dest was not written")
+      let ds := match brks with
+        | some n => toString n
+        | none => if file.isNone && d != "0" then "-777" else "-"
+      (upd a, rcOf r ++ " " ++ toString a.offset ++ " " ++ ds)
+    | "W", [_path, flag], some a =>
+      let (ok, file) := createBinFile a (flag == "ok") (2 ^ 40) true
+      (st, (if ok then "0" else "1") ++ " " ++ (match file with
+        | none => "nofile"
+        | some bs => toHex bs))
     | "G", [], some a => (st, toString a.offset)
     | "D", [f, t], some a =>
       let f := f.toNat!
